@@ -15,6 +15,9 @@ def c03_namespaces(w):
     w("def nsEnum : List (List Char × List Char) := [" + ", ".join(f"({chars(u)}, {chars(p)})" for u, p in pairs) + "]")
     w("-- xsdata/models/enums.py : __DataTypeQNameIndex__ keys (DataType.from_qname)")
     w(f"def dataTypeQNames : List (List Char) := {strs(list(enums.__DataTypeQNameIndex__.keys()))}")
+    w("-- xsdata/models/enums.py : Namespace.XML")
+    w(f"def nsXmlUri : List Char := {chars(Namespace.XML.uri)}")
+    w(f"def nsXmlPrefix : List Char := {chars(Namespace.XML.prefix)}")
     w("-- xsdata/models/enums.py : QNames")
     w(f"def qnXsiNil : List Char := {chars(QNames.XSI_NIL)}")
     w(f"def qnXsiType : List Char := {chars(QNames.XSI_TYPE)}")
